@@ -2,6 +2,7 @@ package dnsmsg
 
 import (
 	"net"
+	"slices"
 
 	"github.com/AdguardTeam/golibs/syncutil"
 	"github.com/miekg/dns"
@@ -87,7 +88,7 @@ func (c *optCloner) clone(rr *dns.OPT) (clone *dns.OPT, full bool) {
 			optClone = opt
 		// TODO(a.garipov): Add more if necessary.
 		default:
-			return dns.Copy(rr).(*dns.OPT), false
+			return copyOPT(rr), false
 		}
 
 		clone.Option = append(clone.Option, optClone)
@@ -116,4 +117,26 @@ func (c *optCloner) put(rr *dns.OPT) {
 	}
 
 	c.rr.Put(rr)
+}
+
+// copyOPT returns a deep copy of rr made without the pools.  [dns.Copy] alone is
+// not enough, since it copies the payloads of some options shallowly.
+func copyOPT(rr *dns.OPT) (clone *dns.OPT) {
+	clone = dns.Copy(rr).(*dns.OPT)
+	for _, o := range clone.Option {
+		switch o := o.(type) {
+		case *dns.EDNS0_SUBNET:
+			o.Address = slices.Clone(o.Address)
+		case *dns.EDNS0_DAU:
+			o.AlgCode = slices.Clone(o.AlgCode)
+		case *dns.EDNS0_DHU:
+			o.AlgCode = slices.Clone(o.AlgCode)
+		case *dns.EDNS0_N3U:
+			o.AlgCode = slices.Clone(o.AlgCode)
+		default:
+			// Go on.
+		}
+	}
+
+	return clone
 }
